@@ -46,7 +46,7 @@ def eom_specs(draw):
         mod_bandwidth=draw(st.sampled_from([20, 40, 100])),
     )
     if draw(st.booleans()):
-        s["custom_buffer_time"] = draw(st.sampled_from([240, 100, 37]))
+        s["custom_buffer_time"] = draw(st.sampled_from([240, 100, 37, 3, 2, 1]))
     if draw(st.booleans()):
         s["multiple_beam_control"] = draw(st.booleans())
     if draw(st.integers(0, 3)) == 0:
@@ -374,7 +374,7 @@ def _waveform_specs(draw, d, lo, hi, nonneg=False, depth=0, kinds=None,
             # two times that round to the same ns
             if len(times) == n and len({round(t * (d - 1)) for t in times}) == n:
                 out["times"] = times
-        if INTERP_KWARGS and draw(st.integers(0, 2)) == 0:
+        if INTERP_KWARGS and (INTERP_KWARGS >= 2 or draw(st.integers(0, 2)) == 0):
             # scipy's interp1d with an explicit kind (not exportable: only where waveforms
             # themselves are the subject)
             kinds_ok = ["linear", "previous", "nearest"] + (["quadratic"] if n >= 3 else []) + (
